@@ -693,5 +693,200 @@ Proof.
   step_inv H; cbn; unfold upd; eqb_cases; cbn in *; auto.
   all: try discriminate.
   all: try (intros Hd; destruct (HS0 Hd); congruence).
+Qed.
+
+Lemma dereg_top_started s t c f l : InvE s -> thr s t = f :: l -> ndf c [f] = 1 ->
+  dst (cbs s c) = DStarted t /\ (cst (cbs s c) = CLinked \/ cst (cbs s c) = CPopped).
+Proof.
+  intros HE E Hf. pose proof (E_fr _ HE c t) as HF. rewrite E in HF.
+  assert (Hd : dst (cbs s c) = DStarted t).
+  { destruct (dst (cbs s c)) as [|t'|t'] eqn:ED; cbn in HF.
+    - destruct f; cbn in *; try discriminate; lia.
+    - destruct (Nat.eqb_spec t' t); [congruence|]. destruct f; cbn in *; try discriminate; lia.
+    - destruct f; cbn in *; try discriminate; lia. }
+  split; auto. eapply E_started; eauto.
+Qed.
+
+Lemma is_notifier_true s t : is_notifier s t = true -> notifier s = Some t.
+Proof.
+  unfold is_notifier. destruct (notifier s) as [w|]; [|discriminate].
+  intros H. apply Nat.eqb_eq in H. congruence.
+Qed.
+
+Lemma is_notifier_false s t : is_notifier s t = false -> notifier s <> Some t.
+Proof.
+  unfold is_notifier. destruct (notifier s) as [w|]; [|discriminate].
+  intros H. apply Nat.eqb_neq in H. congruence.
+Qed.
+
+Lemma InvE_done s t s' ev : InvA s -> InvB s -> InvC s -> InvD s -> InvE s -> step t s = Some (s', ev) ->
+  forall c0 t0, dst (cbs s' c0) = DDone t0 ->
+  (cst (cbs s' c0) = CPopped \/ cst (cbs s' c0) = CInl \/ cst (cbs s' c0) = CUnlinked) /\
+  (forall t', xst (cbs s' c0) = XRun t' -> t' = t0).
+Proof.
+  intros HA HB HC HD HE H c0 t0.
+  pose proof (E_done _ HE c0 t0) as HD0.
+  step_inv H; cbn; unfold upd; eqb_cases; cbn in *; auto.
+  all: try discriminate.
+  all: try (intros Hd; destruct (HD0 Hd) as [[?|[?|?]] ?]; split; auto; try congruence; fail).
+  all: try (exfalso;
+            match goal with E : thr _ _ = _ :: _ |- _ =>
+              destruct (dereg_top_started _ _ c _ _ HE E) as [_ [?|?]];
+              [cbn; now rewrite Nat.eqb_refl|congruence|congruence] end).
+  - intros _. split; auto. discriminate.
+  - intros Hd. exfalso. destruct (HD0 Hd) as [Hc _].
+    assert (cst (cbs s n) = CLinked) by (apply (B_in _ HB); rewrite Heql0; now left).
+    intuition congruence.
+  - intros Hd. exfalso. destruct (HD0 Hd) as [Hc _].
+    assert (cst (cbs s c) = CReg) by (apply (B_reg _ HB t); rewrite Heql; now left).
+    intuition congruence.
+  - intros _. split; auto. intros t' Hx.
+    pose proof (B_x _ HB c) as HX. rewrite Hx in HX.
+    match goal with E : cst (cbs s c) = CLinked |- _ => rewrite E in HX end. discriminate.
+  - intros [= <-]. split; auto. intros t' Hx.
+    assert (H1 : notifier s = Some t') by (eapply D_not; eauto).
+    match goal with E : is_notifier _ _ = true |- _ => apply is_notifier_true in E end. congruence.
+  - intros [= <-]. split; auto. intros t' Hx.
+    assert (H1 : notifier s = Some t') by (eapply D_not; eauto).
+    match goal with E : is_notifier _ _ = true |- _ => apply is_notifier_true in E end. congruence.
+  - intros [= <-].
+    match goal with E : completed _ = true |- _ => destruct (D_comp _ HD c E) as [Hx Hc] end.
+    split; auto.
+    intros t' Hx'. congruence.
+Qed.
+
+Lemma InvE_post s t s' ev : InvA s -> InvB s -> InvC s -> InvD s -> InvE s -> step t s = Some (s', ev) ->
+  forall t0 c0, In (FReqPost c0) (thr s' t0) -> removed (cbs s' c0) = false ->
+  forall t', dst (cbs s' c0) <> DDone t'.
+Proof.
+  intros HA HB HC HD HE H t0 c0.
+  pose proof (E_post _ HE t0 c0) as HP0. pose proof (E_post _ HE t c0) as HPt.
+  pose proof (D_post _ HD t0 c0) as HQ0. pose proof (D_post _ HD t c0) as HQt.
+  step_inv H; cbn; unfold upd; eqb_cases; cbn in *; intros Hin.
+  all: repeat match goal with Hx : _ \/ _ |- _ => destruct Hx as [Hx|Hx]; try discriminate Hx end.
+  all: try (now apply HP0).
+  all: try (apply HPt; tauto).
+  all: try (intros; discriminate).
+  all: try (exfalso; destruct HQt as (?&?&?); [tauto|]; congruence).
+  all: try (exfalso; destruct HQ0 as (?&?&?); [assumption|]; congruence).
+  all: try (assert (Hcl : cst (cbs s n) = CLinked) by (apply (B_in _ HB); rewrite Heql0; now left);
+            intros _ t' Hd; destruct (E_done _ HE _ _ Hd) as [Hc _]; intuition congruence).
+  - intros _. apply HPt; auto.
+  - intros _. apply HP0; auto.
+Qed.
+
+Lemma InvE_wait s t s' ev : InvA s -> InvB s -> InvC s -> InvD s -> InvE s -> step t s = Some (s', ev) ->
+  forall t0 c0, In (FDeregWait c0) (thr s' t0) -> notifier s' <> Some t0 /\ cst (cbs s' c0) = CPopped.
+Proof.
+  intros HA HB HC HD HE H t0 c0.
+  pose proof (E_wait _ HE t0 c0) as HW0. pose proof (E_wait _ HE t c0) as HWt.
+  step_inv H; cbn; unfold upd; eqb_cases; cbn in *; intros Hin.
+  all: repeat match goal with Hx : _ \/ _ |- _ => destruct Hx as [Hx|Hx]; try discriminate Hx end.
+  all: try (now apply HW0).
+  all: try (apply HWt; tauto).
+  all: try (destruct HWt as [? ?]; [tauto|]; split; congruence).
+  all: try (destruct HW0 as [? ?]; [assumption|]; split; congruence).
+  all: try (injection Hin as <-; split; [apply is_notifier_false; assumption|];
+            match goal with E : thr _ _ = FDeregCS _ _ :: _ |- _ =>
+              destruct (dereg_top_started _ _ c _ _ HE E) as [_ [?|?]];
+              [cbn; now rewrite Nat.eqb_refl|congruence|congruence] end).
+  - exfalso. destruct HWt as [_ Hc]; [tauto|]. destruct (C_pop _ HC Heqb c0). congruence.
+  - exfalso. destruct HWt as [_ Hc]; [tauto|].
+    assert (cst (cbs s c) = CReg) by (apply (B_reg _ HB t); rewrite Heql; now left). congruence.
+  - exfalso. destruct HW0 as [_ Hc]; [assumption|].
+    assert (cst (cbs s c) = CReg) by (apply (B_reg _ HB t); rewrite Heql; now left). congruence.
+Qed.
+
+Lemma InvE_step s t s' ev : InvA s -> InvB s -> InvC s -> InvD s -> InvE s ->
+  step t s = Some (s', ev) -> InvE s'.
+Proof.
+  intros HA HB HC HD HE H. constructor.
+  - eapply InvE_fr; eauto.
+  - eapply InvE_started; eauto.
+  - eapply InvE_done; eauto.
+  - eapply InvE_post; eauto.
+  - eapply InvE_wait; eauto.
+Qed.
+
+Lemma InvE_init progs bods : InvE (init progs bods).
+Proof.
+  constructor; cbn; try discriminate.
+  all: intros a b; try destruct (nth_error progs a); try destruct (nth_error progs b); cbn;
+       try reflexivity; try tauto; intros [H|[]]; discriminate.
+Qed.
+
+(* ------------------------------------------------------------------------------------------ *)
+(* Trace invariants                                                                           *)
+
+(* a property of every event together with the history before it *)
+Definition AtEvent (Q : list ev -> ev -> Prop) (tr : list ev) : Prop :=
+  forall pre a post, tr = pre ++ a :: post -> Q pre a.
+
+Lemma AtEvent_nil Q : AtEvent Q [].
+Proof. intros pre a post E. destruct pre; discriminate. Qed.
+
+Lemma AtEvent_snoc Q tr e : AtEvent Q tr -> Q tr e -> AtEvent Q (tr ++ [e]).
+Proof.
+  intros H He pre a post E.
+  destruct (@exists_last _ (a :: post)) as (post' & x & Ep); [discriminate|].
+  destruct post' as [|a' post'].
+  - cbn in Ep. injection Ep as -> ->.
+    apply app_inj_tail in E. destruct E as [-> ->]. exact He.
+  - cbn in Ep. injection Ep as <- Ep. rewrite Ep in E.
+    rewrite app_comm_cons, app_assoc in E. apply app_inj_tail in E. destruct E as [E _].
+    eapply H. exact E.
+Qed.
+
+Lemma AtEvent_app1 Q tr e : AtEvent Q tr -> Q tr e -> AtEvent Q (tr ++ [e]).
+Proof. apply AtEvent_snoc. Qed.
+
+Lemma AtEvent_app2 Q tr e1 e2 :
+  AtEvent Q tr -> Q tr e1 -> Q (tr ++ [e1]) e2 -> AtEvent Q (tr ++ [e1; e2]).
+Proof.
+  intros H H1 H2. change [e1; e2] with ([e1] ++ [e2]). rewrite app_assoc.
+  apply AtEvent_snoc; auto. apply AtEvent_snoc; auto.
+Qed.
+
+Definition is_exec (c : nat) (e : ev) : bool :=
+  match snd e with EExec c' => Nat.eqb c' c | _ => false end.
+Definition is_exec_by (t c : nat) (e : ev) : bool := Nat.eqb (fst e) t && is_exec c e.
+Definition is_end_by (t c : nat) (e : ev) : bool :=
+  Nat.eqb (fst e) t && match snd e with EEnd c' => Nat.eqb c' c | _ => false end.
+
+(* events that read or write callback c (or begin / end its destruction) *)
+Definition touches (c : nat) (k : evk) : bool :=
+  match k with
+  | EExec c' | EDone c' | EWait c' | EDeregBegin c' | EDeregRet c' => Nat.eqb c' c
+  | _ => false
+  end.
+
+(* nothing touches a callback after its destructor returned *)
+Definition Q1 (pre : list ev) (a : ev) : Prop :=
+  forall c, touches c (snd a) = true -> forall t, ~ In (t, EDeregRet c) pre.
+(* when the destructor of c returns on thread t, c is not executing on any other thread *)
+Definition Q2 (pre : list ev) (a : ev) : Prop :=
+  forall c, snd a = EDeregRet c -> forall t', t' <> fst a ->
+  cnt (is_exec_by t' c) pre = cnt (is_end_by t' c) pre.
+
+Record InvT (s : st) (tr : list ev) : Prop := {
+  T_exec : forall c, cnt (is_exec c) tr = if is_xnone (xst (cbs s c)) then 0 else 1;
+  T_run : forall t c, cnt (is_exec_by t c) tr = cnt (is_end_by t c) tr + nfr c (thr s t);
+  T_ret : forall t c, In (t, EDeregRet c) tr -> dst (cbs s c) = DDone t;
+  T_q1 : AtEvent Q1 tr;
+  T_q2 : AtEvent Q2 tr
+}.
+
+Lemma InvT_exec s tr t s' ev : InvA s -> InvB s -> InvT s tr -> step t s = Some (s', ev) ->
+  forall c0, cnt (is_exec c0) (tr ++ ev) = if is_xnone (xst (cbs s' c0)) then 0 else 1.
+Proof.
+  intros HA HB HT H c0.
+  pose proof (T_exec _ _ HT c0) as HE0.
+  pose proof (B_x _ HB c0) as HX.
+  pose proof (B_fr _ HB c0 t) as HF.
+  step_inv H; rewrite cnt_app; cbn; unfold upd; eqb_cases; cbn in *; auto.
+  all: try lia.
+  all: rewrite ?Nat.eqb_refl in *.
+  all: try match goal with E : cst _ = _ |- _ => rewrite E in HX end.
+  all: try (destruct (xst (cbs s _)) eqn:EX; cbn in *; eqb_cases; try lia; try congruence; fail).
   Show.
 Admitted.
